@@ -39,11 +39,11 @@ CHECKS = {
          "Trusted: ring AEAD. Confidentiality is decided as absence of 8-byte cleartext windows in explored captures.",
          "DESIGN.md section 5 C02"),
  "C09": ("fault_enumeration", "fault-space enumeration on recorded runs: captured datagram x re-injection offset x claimed source x variant, one fresh real node execution each, with a 400 s probe phase",
-         "Scenarios (2 nodes single open, 2 nodes dual open, 3-node mesh; router mode with claims) are executed with a wire capture; for every selected datagram (all handshake datagrams, first rotation/node-info/data datagrams, mid-run data, everything around the first key rotation, the last ones) x 12 offsets {0..600 s} x claimed source {original, another peer, unknown} x variants {verbatim, counter+1/+1000/max, key-id edit, last-bit flip, stage edit, truncation} x target {destination, reflected to sender} a fresh execution runs to the injection time, injects, and then sends one packet per second in every direction for 400 s: all pairs stay connected and every packet is delivered exactly once (one extra copy of an earlier packet is tolerated for in-window replays). Injection before the mesh is complete is outside the statement and skipped.",
+         "Scenarios (2 nodes single open, 2 nodes dual open, 3-node mesh; router mode with claims) are executed with a wire capture; for every selected datagram (all handshake datagrams, first rotation/node-info/data datagrams, mid-run data, everything around the first key rotation, the last ones) x 12 offsets {0..600 s} x claimed source {original, another peer, unknown} x variants {verbatim, counter+1/+1000/max, key-id edit, last-bit flip, stage edit, truncation} x target {destination, reflected to sender}, plus ordered pairs of verbatim handshake re-injections, a fresh execution runs to the injection time, injects, and then sends one packet per second in every direction for 400 s: all pairs stay connected and every packet is delivered exactly once (one extra copy of an earlier packet is tolerated for in-window replays; a data datagram replayed two or more seconds after its first delivery must not be delivered again). Injection before the mesh is complete is outside the statement and skipped.",
          "Trusted: the k-th wire datagram has the same role in every execution (deterministic scheduling). Violations that depend on the order of uncontrolled random counters are replayed 8 times and reported with their reproduction rate.",
          "DESIGN.md section 5 C09"),
  "C05": ("model_checking", "explicit-state BFS by history replay over two real PeerCrypto handshake objects (object level) and over two real nodes (node level)",
-         "Object level: all schedules over {A initiates, B initiates, deliver/duplicate/drop ANY of <= 4 in-flight datagrams, tick A/B x1/x61/x121, restart A/B} to depth 6 quick / 9 thorough for both salted-hash orientations plus a plain variant, on real PeerCrypto objects; objects returning a fatal handshake error are discarded as the node does. In every state: at most one completion per object; if both completed the same attempt (tracked by message lineage): same cipher, opposite nonce halves, exactly one rotation initiator, exchanged payloads, probes open both ways; from every state 125 loss-free ticks must bring two live objects to a common completed attempt.",
+         "Node level: all placements of <= 2 deviations (drop, duplicate, hold 1/2/5/61/121/130 s, partition 125 s) over the first 10-14 datagram hand-overs of real 2- and 3-node runs (dial patterns A, B, both; both hash orders), each followed by a reliable phase of peer timeout + retry horizon: mutually connected, payload both ways, no self-peering. Object level: all schedules over {A initiates, B initiates, deliver/duplicate/drop ANY of <= 4 in-flight datagrams, tick A/B x1/x61/x121, restart A/B} to depth 6 quick / 9 thorough for both salted-hash orientations plus a plain variant, on real PeerCrypto objects; objects returning a fatal handshake error are discarded as the node does. In every state: at most one completion per object; if both completed the same attempt (tracked by message lineage): same cipher, opposite nonce halves, exactly one rotation initiator, exchanged payloads, probes open both ways; from every state 125 loss-free ticks must bring two live objects to a common completed attempt.",
          "Trusted: canonical form (audited), lineage tracking in the harness. Two parties. The network in the fair suffix is reliable with bounded rate (32 datagrams/tick, 4 once a pong storm was seen).",
          "DESIGN.md section 5 C05"),
  "C08": ("fault_enumeration", "fault-space enumeration: receiver states x sources x structured datagram domain through the real socket event of a mock-backed node",
@@ -55,16 +55,16 @@ CHECKS = {
          "Trusted: the seal-log hook records exactly the (key, nonce) handed to ring (one added line in CryptoCore::encrypt). Random counter starts are not forced except through verif_set_send_nonce in the limit family.",
          "DESIGN.md section 5 C04"),
  "C03": ("model_checking", "explicit-state BFS by history replay over a real CryptoCore pair, history-only reference oracle",
-         "All schedules over {seal (<=5), deliver any sealed datagram (again), forge (raised counter), tick, rotate (new key id at receiver then sender)} up to depth 9 quick / 11 thorough per cipher, executed on real CryptoCore objects; every delivery's accept/reject verdict is compared with a threshold computed from the recorded history only, and in every reached state every datagram sealed so far plus a fresh one is probed. States are deduplicated on a canonical form (key classes, thresholds and counters as offsets, oracle ages); a dedup-off audit to a smaller depth must reach the same canonical states.",
+         "All schedules over {seal (<=5), deliver any sealed datagram (again), forge (raised counter), tick, rotate (new key id at receiver then sender)} up to depth 9 quick / 13 thorough (aes128; 8 / 12 for the other ciphers), executed on real CryptoCore objects; every delivery's accept/reject verdict is compared with a threshold computed from the recorded history only, and in every reached state every datagram sealed so far plus a fresh one is probed. States are deduplicated on a canonical form (key classes, thresholds and counters as offsets, oracle ages); a dedup-off audit to a smaller depth must reach the same canonical states.",
          "Trusted: ring AEAD authenticity; counters near byte-carry boundaries are covered by C04, not forced here. Node-level replay (interface writes k rounds later) is covered by C09's replay family.",
          "DESIGN.md section 5 C03"),
  "C06": ("exploration", "exhaustive enumeration of cipher-list configurations through real two-party handshakes against a reference selection rule",
-         "Every pair of unordered side descriptions (each cipher absent or present with a speed from the grid {0,1,2} quick / {0,1,2,3e38} thorough, plain flag) is expanded inside the case into ALL orderings of both lists x both initiators, each a real PeerCrypto handshake followed by probes; outcomes must agree across orderings/initiators and with the reference (plain iff both flags; a cipher maximising the slower side's speed; clean 'No common algorithms' failure iff no common cipher). Every single-byte edit of the cipher-list part of a genuine ping must be rejected without state change.",
+         "Every pair of unordered side descriptions (each cipher absent or present with a speed from the grid {0,1,2} quick / {0,1,2,3e38} thorough, plain flag) is expanded inside the case into ALL orderings of both lists x both initiators, each a real PeerCrypto handshake followed by probes; the configuration path (cipher names in any case and alias, empty list = all three ciphers without plain, unknown name = error) is enumerated over all lists of up to 2 names; outcomes must agree across orderings/initiators and with the reference (plain iff both flags; a cipher maximising the slower side's speed; clean 'No common algorithms' failure iff no common cipher). Every single-byte edit of the cipher-list part of a genuine ping must be rejected without state change.",
          "Trusted: the 20-line reference rule. Speeds outside the grid are assumed to behave like grid values with the same order relations (the code only compares speeds).",
          "DESIGN.md section 5 C06"),
  "C07": ("model_checking", "explicit-state BFS by history replay over two real PeerCrypto objects (rotation state + key slots) with invariant, probes and bounded fair extension",
-         "After a genuine handshake (both salted-hash orientations; aes128 deep, other ciphers shallower) all schedules over {120-tick rotation cycle at A, at B, deliver / duplicate / drop any of <= 4 in-flight rotation datagrams} are explored to depth 7 quick / 10 thorough on the real objects. After every transition: each end's current sealing slot holds, at the peer, a key with the same fingerprint; a probe sealed by each end opens at the other with the expected key id; from every state a loss-free extension of 6 rounds must change each end's sealing key at least twice in its last 4 rounds. Canonical states use relative message ids (preserving id mod 4), key classes and counter offsets; audited with dedup off.",
-         "Trusted: the canonical form (audited to depth 4/5). Two parties only; pool cap 4 (overflow = loss of the oldest datagram).",
+         "After a genuine handshake (both salted-hash orientations; aes128 deep, other ciphers shallower) all schedules over {120-tick rotation cycle at A, at B, deliver / duplicate / drop any of <= 4 in-flight rotation datagrams} are explored to depth 7 quick / 12 thorough on the real objects. After every transition: each end's current sealing slot holds, at the peer, a key with the same fingerprint; a probe sealed by each end opens at the other with the expected key id; from every state a loss-free extension of 6 rounds must change each end's sealing key at least twice in its last 4 rounds. Canonical states use relative message ids (preserving id mod 4), key classes and counter offsets; audited with dedup off.",
+         "Trusted: the canonical form (audited to depth 5/6). Two parties only; pool cap 4 (overflow = loss of the oldest datagram).",
          "DESIGN.md section 5 C07"),
  "C20": ("exploration", "exhaustive per-option / pairwise (thorough: 3-wise) presence-combination enumeration through the real YAML and argv parsers and merge functions against a documented-defaults overlay",
          "For each of 35 options all four presence combinations (absent / file / command line / both) with distinct values in two value variants, all pairs of options x 15 combinations, and in the thorough tier all triples, are pushed through serde_yaml -> ConfigFile -> merge_file and argv -> structopt -> merge_args; the effective Config is compared field by field with a reference overlay written from vpncloud.adoc; each effective configuration is then round-tripped through into_config_file + YAML. The netmask function (its text is cut out of src/main.rs at build time) is run on every prefix length 0..=40 x 4 addresses and a list of malformed strings.",
